@@ -2,4 +2,5 @@
 From Coq Require Import Extraction ExtrOcamlBasic NArith ZArith.
 From V Require Import C03.Model.
 Extraction "c03_model.ml" run_new run_old read_new read_old read_head lookup truth_at c03_ok valid_diffb
-  no_noop_zero_write blen st_empty Z.of_N.
+  no_noop_zero_write blen st_empty Z.of_N sys_guard sys_guarded_new sys_guarded_old
+  crun casm_read casm_head ctruth_at ctruth ans_of casm_ok cvalid clen.
